@@ -14,16 +14,33 @@ Tie:    the REAL remote.Proto/CBOR/JSON serializers, commands.DeliverySerializer
 Oracle: a message sent with the serializer chosen for its type comes back equal through the
         receiving dispatcher; an entry registered for the exact type wins; unsupported => error.
 """
+import json
 import os
 import re
+import threading
 
+import vlib
 from vlib import read_jsonl, canon_hash
+from bytes_util import pack
 
-HEADER = """From Coq Require Import NArith List Bool.
-From GV Require Import Lib.Bytes C25.Model C25.Eval.
+HEADER = """From Coq Require Import NArith List Bool Uint63.
+From GV Require Import Lib.Bytes Lib.BytesPack C25.Model C25.Eval.
 Import ListNotations.
 Open Scope N_scope.
 """
+
+
+def go_test_own_overlay(ctx, tag, pkg, run, files, timeout=1500):
+    """ctx.go_test with a private overlay file, so that two packages can be tested concurrently"""
+    src_dir = os.path.join(vlib.VERIF, "go", "inpkg", pkg.replace("/", "_"))
+    repl = {os.path.join(vlib.REPO, pkg, f): os.path.join(src_dir, f) for f in list(files) + ["zz_verif_common_test.go"]}
+    ov = os.path.join(ctx.work, "overlay_%s.json" % tag)
+    json.dump({"Replace": repl}, open(ov, "w"), indent=1)
+    e = vlib.go_env()
+    e.update({"VERIF_SEED": str(ctx.seed), "VERIF_TIER": ctx.tier, "VERIF_OUT": ctx.work})
+    cmd = [vlib.GOBIN, "test", "-tags", "verif", "-overlay", ov, "-vet=off", "-count=1", "-run", run,
+           "-timeout", "%ds" % (timeout - 30), "./" + pkg + "/"]
+    return vlib.sh(cmd, cwd=vlib.REPO, env=e, timeout=timeout)
 
 KNOWN_SIGS = {
     "resolveSerializer:earlier-interface-entry-shadows-exact-type":
@@ -51,12 +68,28 @@ def run(ctx):
         "value domain: proto messages, structs of scalars/strings/slices/maps/nested structs, built-in primitives, delivery commands (no any-typed fields: JSON cannot preserve their dynamic type)",
     ]
     p = os.path.join(ctx.work, "c25_cases.jsonl")
-    if os.path.exists(p):
-        os.remove(p)
-    rc, out = ctx.go_test("internal/remoteclient", "^TestVerifC25$", ["zz_verif_C25_test.go"], timeout=900)
+    pa = os.path.join(ctx.work, "c25a_cases.jsonl")
+    for f in (p, pa):
+        if os.path.exists(f):
+            os.remove(f)
+    res = {}
+    th = threading.Thread(target=lambda: res.update(actor=go_test_own_overlay(ctx, "actor", "actor", "^TestVerifC25Actor$", ["zz_verif_C25_test.go"])))
+    th.start()
+    rc, out = go_test_own_overlay(ctx, "rc", "internal/remoteclient", "^TestVerifC25$", ["zz_verif_C25_test.go"], timeout=900)
     cases = read_jsonl(p)
     if rc != 0 or not cases:
         ctx.tie_broken("go-harness internal/remoteclient TestVerifC25", out)
+    th.join()
+    rca, outa = res.get("actor", (1, "not run"))
+    acases = read_jsonl(pa)
+    if rca != 0 or not acases:
+        ctx.tie_broken("go-harness actor TestVerifC25Actor", outa)
+    for c in acases:
+        for msg in (c.get("Oracle") or [])[:1]:
+            sig = "internal-serializers:" + ("panic" if "panicked" in msg else c["Kind"])
+            if not any(f.signature == sig for f in ctx.findings):
+                ctx.violation(sig, "actor Terminated/PoisonPill serializers: " + msg,
+                              {"kind": c["Kind"], "decoder_or_type": c["Dec"], "frame_hex": c.get("Data"), "path_hex": c.get("Path"), "unix_nanos_u64": c.get("Nanos")})
 
     # ---------------------------------------------------------------- oracle
     per_sig = {}
@@ -77,6 +110,7 @@ def run(ctx):
     if not ok_eval:
         ctx.tie_broken("C25/Model.v or C25/Eval.v does not compile", out_eval)
     elif sel:
+        n_wire = 0
         lines = [HEADER]
         chunk = []
         names = []
@@ -108,6 +142,20 @@ def run(ctx):
             nm = "k%d" % len(names)
             names.append(nm)
             lines.append("Definition %s : list bool := [%s]." % (nm, ";\n ".join(chunk)))
+        # byte-level cases of the actor package: Terminated / PoisonPill frames through the Coq frame models
+        wl = []
+        deccode = {"terminated": 1, "poison": 2, "proto": 3, "cbor": 3, "json": 3, "delivery": 4}
+        for c in acases:
+            if c["Kind"] in ("prod", "refuse") or c["Dec"] not in deccode:
+                continue
+            wl.append("check_wire %d %d (unpack %s%%uint63) (unpack %s%%uint63) %d %s %s" % (
+                1 if c["Kind"] in ("term-rt", "poison-ser") else 0, deccode[c["Dec"]], pack(bytes.fromhex(c.get("Data") or "")),
+                pack(bytes.fromhex(c.get("Path") or "")), c.get("Nanos") or 0, b(c["OK"]), b(c.get("ParseOK", False))))
+        for k in range(0, len(wl), 100):
+            nm = "w%d" % (k // 100)
+            names.append(nm)
+            lines.append("Definition %s : list bool := [%s]." % (nm, ";\n ".join(wl[k:k + 100])))
+        n_wire = len(wl)
         lines.append("Definition res := %s." % " ++ ".join(names))
         lines.append("Definition bad := filter (fun p => negb (snd p)) (combine (seq 0 (length res)) res).")
         lines.append("Eval vm_compute in (length res, length bad, map fst (firstn 5 bad)).")
@@ -117,12 +165,16 @@ def run(ctx):
             ctx.tie_broken("model evaluation (cases_C25.v did not evaluate)", o2[-3000:])
         else:
             mism = int(m.group(2))
-            if int(m.group(1)) != len(sel):
+            if int(m.group(1)) != len(sel) + n_wire:
                 ctx.tie_broken("model evaluation: case count differs", o2[-500:])
             if mism:
                 idxs = [int(x) for x in re.findall(r"\d+", m.group(3))]
                 detail = []
+                wire_cases = [c for c in acases if c["Kind"] not in ("prod", "refuse") and c["Dec"] in deccode]
                 for i in idxs[:4]:
+                    if i >= len(sel):
+                        detail.append({"wire_case": wire_cases[i - len(sel)]})
+                        continue
                     c = sel[i]
                     detail.append({k: c[k] for k in ("Entries", "Msg", "Matches", "IsProto", "Ser", "Deser", "Fast", "RResolve", "RDSer", "RDDeser")})
                 ctx.tie_broken("model-vs-implementation resolveSerializer/serializerDispatch (%d of %d cases differ)" % (mism, len(sel)), detail)
@@ -149,6 +201,7 @@ def run(ctx):
         "configurations_by_size": sizes, "messages": msgs, "harness_notes": notes,
         "oracle_signatures": {k: len(v) for k, v in per_sig.items()},
         "model_cases": len(sel), "model_mismatches": mism,
+        "actor_package_cases": {k: sum(1 for c in acases if c["Kind"] == k) for k in sorted({c["Kind"] for c in acases})},
         "samples": [{k: c[k] for k in ("Entries", "Msg", "Ser", "RResolve", "RDSer", "RDDeser")} for c in cases[:3]],
         "theorems": ["C25_dispatch_roundtrip", "C25_send_receive_roundtrip", "C25_resolve_exact_type_first", "C25_resolve_then_first_interface", "C25_resolve_sound", "C25_unsupported_serialize_error",
                      "C25_unsupported_resolve_none", "C25_undecodable_error", "C25_order_independent_partial", "C25_cross_acceptance_refuted",
